@@ -82,12 +82,14 @@ void hwloc_pci_discovery_exit(struct hwloc_topology *t) { (void) t; }
 
 /* ---- the dup contract model ------------------------------------------------------------------------------------ */
 static size_t vp_req[NREQ]; static unsigned vp_nreq; static void *vp_blk[NREQ]; static int vp_dup_fail; static struct hwloc_topology *vp_dup_result; static unsigned vp_dups;
+static unsigned long vp_src_flags;      /* topology flags of the original: the real dup copies them (NO_DISTANCES / NO_MEMATTRS do not prevent users from adding such data later) */
 static int vp_dup_model(hwloc_topology_t *newp, hwloc_topology_t old, struct hwloc_tma *tma)
 {
   (void) old; vp_dups++;
   if (vp_dup_fail) return -1;
   for (unsigned i = 0; i < NREQ; i++) if (i < vp_nreq) { vp_blk[i] = tma->malloc(tma, vp_req[i]); if (!vp_blk[i]) return -1; }
   struct hwloc_topology *n = vp_blk[0];
+  n->flags = vp_src_flags;
   hwloc_components_init();        /* the real dup initialises the copy, which takes a reference on the component registry */
   vp_dup_result = n;
   *newp = n;
@@ -114,7 +116,8 @@ static void *vp_copy_topology(void *d, const void *s_, size_t n) { (void) n; *(s
 /* ---- get_length + write around ANY request sequence ------------------------------------------------------------------ */
 VP_HARNESS(h_write)
 {
-  static struct hwloc_topology src;         /* only its address matters to shmem.c; dup is the model */
+  static struct hwloc_topology src;         /* only its address and flags matter to shmem.c; dup is the model */
+  { unsigned long f = vp_in_range(0, 3); vp_src_flags = (f & 1 ? HWLOC_TOPOLOGY_FLAG_NO_DISTANCES : 0) | (f & 2 ? HWLOC_TOPOLOGY_FLAG_NO_MEMATTRS : 0); src.flags = vp_src_flags; }
   vp_nreq = (unsigned) vp_in_range(1, NREQ);
   vp_req[0] = sizeof(struct hwloc_topology);
   for (unsigned i = 1; i < NREQ; i++) { vp_req[i] = (size_t) vp_in64(); VP_ASSUME(vp_req[i] <= 4096); }
